@@ -5,6 +5,8 @@ cd "$(dirname "${BASH_SOURCE[0]}")"
 export CARGO_NET_OFFLINE=true
 mkdir -p target/work evidence
 ( cd harness/core && cargo build --release --offline )
+# the CLI without the `parallel` feature (C19)
+( cd harness/seq && cargo build --release --offline )
 if [ -f harness/lsp/Cargo.toml ] && [ -f harness/lsp/src/main.rs ]; then
   ( cd harness/lsp && cargo build --release --offline )
 fi
